@@ -474,6 +474,20 @@ theorem GroupC.range : ∀ (L k : Nat) (g : Nat × Nat), GroupC t F L k g →
     · have := ih _ _ h
       rw [PlanPre.child_ls, PlanPre.child_le] at this; omega
 
+/-- without the data check the data file does not matter -/
+theorem LinkedC_false_data (data data' : List UInt8) :
+    ∀ L k, LinkedC hf ld data false t F L k = LinkedC hf ld data' false t F L k := by
+  intro L
+  induction L with
+  | zero =>
+    intro k
+    funext owed isRoot g
+    simp only [LinkedC, LeafOk, Bool.false_eq_true, false_implies]
+  | succ L ih =>
+    intro k
+    funext owed isRoot g
+    simp only [LinkedC, ih]
+
 end group
 
 /-! ## reached = touched by the query -/
@@ -1292,10 +1306,12 @@ theorem rec_spec (g : PlanPre.Geo ob.tree.size ob.tree.bs F) (n : Nat) :
             simp only [LinkedC, if_pos hk, hl] at this
             exact hp this.1
 
-/-- no io error can happen: every load of an existing node succeeds (memory stores, or io stores
-with a long enough backing, or the fsm flavour), and the data file is as long as the blob -/
+/-- no io error can happen: every load of an existing node that the validator loads (the nodes
+relevant for the outboard) succeeds (memory stores, or io stores with a long enough backing, or
+the fsm flavour), and the data file is as long as the blob -/
 def NoIoErr (wd : Bool) : Prop :=
-  (∀ x, x < F → ∃ p, ob.load hf fl (Node.subBs x ob.tree.bs) = .ok p) ∧
+  (∀ x, x < F → ob.tree.isRelevant (Node.subBs x ob.tree.bs) = true →
+    ∃ p, ob.load hf fl (Node.subBs x ob.tree.bs) = .ok p) ∧
   (wd = true → ob.tree.size ≤ data.length)
 
 omit [LawfulBEq H] in
@@ -1325,12 +1341,16 @@ theorem rec_ok (g : PlanPre.Geo ob.tree.size ob.tree.bs F) (hno : NoIoErr hf fl 
     rw [if_neg (by simpa using hrs)]
     have e1 := subBs_node g hk
     have e2 := lbr3_node g hk
-    obtain ⟨p, hp⟩ := hno.1 _ hk
+    simp only [e1, e2]
+    by_cases hrel : ob.tree.isRelevant (nodeOf k (0 + ob.tree.bs)) = true
+    case neg =>
+      have hrel' : ob.tree.isRelevant (nodeOf k (0 + ob.tree.bs)) = false := by simpa using hrel
+      simp only [hrel', Bool.not_false, if_true]
+      exact yieldRange_ok _ _ _ _ _ _ _ (hmin _)
+    obtain ⟨p, hp⟩ := hno.1 _ hk (by rw [e1]; exact hrel)
     rw [e1] at hp
-    simp only [e1, e2, hp]
-    split
-    · exact yieldRange_ok _ _ _ _ _ _ _ (hmin _)
-    · cases p with
+    simp only [hrel, hp, Bool.not_true, Bool.false_eq_true, if_false]
+    cases p with
       | none => rfl
       | some p =>
         obtain ⟨lh, rh⟩ := p
@@ -1349,12 +1369,16 @@ theorem rec_ok (g : PlanPre.Geo ob.tree.size ob.tree.bs F) (hno : NoIoErr hf fl 
     rw [if_neg (by simpa using hrs)]
     have e1 := subBs_node g hk
     have e2 := lbr3_node g hk
-    obtain ⟨p, hp⟩ := hno.1 _ hk
+    simp only [e1, e2]
+    by_cases hrel : ob.tree.isRelevant (nodeOf k (L + ob.tree.bs)) = true
+    case neg =>
+      have hrel' : ob.tree.isRelevant (nodeOf k (L + ob.tree.bs)) = false := by simpa using hrel
+      simp only [hrel', Bool.not_false, if_true]
+      exact yieldRange_ok _ _ _ _ _ _ _ (hmin _)
+    obtain ⟨p, hp⟩ := hno.1 _ hk (by rw [e1]; exact hrel)
     rw [e1] at hp
-    simp only [e1, e2, hp]
-    split
-    · exact yieldRange_ok _ _ _ _ _ _ _ (hmin _)
-    · cases p with
+    simp only [hrel, hp, Bool.not_true, Bool.false_eq_true, if_false]
+    cases p with
       | none => rfl
       | some p =>
         obtain ⟨lh, rh⟩ := p
@@ -1437,8 +1461,8 @@ theorem root_facts (t : Tree) (hs : t.size ≤ 2 ^ 63) :
   refine ⟨by rw [h2]; exact h3, h1, ?_⟩
   rw [h2, indexOf_nodeOf (by omega)]
 
-/-- the validators on a tree with more than one chunk group: `validate_rec` at the shifted root -/
 omit [LawfulBEq H] in
+/-- the validators on a tree with more than one chunk group: `validate_rec` at the shifted root -/
 theorem validRanges_many (hb : ob.tree.blocks ≠ 1) (q : Ranges) :
     validRanges hf fl ob data q =
       validateRec hf fl true ob data ob.tree.shifted.2 65 ob.root ob.tree.shifted.1 true
@@ -1496,5 +1520,343 @@ theorem validOutboardRanges_one (hb : ob.tree.blocks = 1) (q : Ranges) :
   simp only [this, if_true]
 
 end top
+
+/-! ## the notions at the level of the model (shifted ids, stores) -/
+
+section notions
+variable (hf : HashFns H) (fl : Flavour) (ob : Store H) (data : List UInt8) (withData : Bool)
+
+/-- `g` is the chunk range of a chunk group below the shifted node `shifted` of tree `t` -/
+def Group (t : Tree) (shifted : Nat) (g : Nat × Nat) : Prop :=
+  GroupC t t.shifted.2 (Spec.levelOf shifted) (Spec.indexOf shifted) g
+
+/-- group `g` lies below the shifted node `shifted`, every persisted node on the path from
+`shifted` down to `g` holds a pair whose parent hash is the hash owed from above (`owed` at
+`shifted` itself), and (with data) the stored bytes of `g` hash to the half owed to it -/
+def Linked (owed : H) (shifted : Nat) (isRoot : Bool) (g : Nat × Nat) : Prop :=
+  LinkedC hf (ob.load hf fl) data withData ob.tree ob.tree.shifted.2
+    (Spec.levelOf shifted) (Spec.indexOf shifted) owed isRoot g
+
+/-- the chain of `split(ranges, node)` from `shifted` down to `g` never produces an empty query -/
+def Reach (t : Tree) (ranges : Ranges) (shifted : Nat) (g : Nat × Nat) : Prop :=
+  ReachC t t.shifted.2 (Spec.levelOf shifted) (Spec.indexOf shifted) ranges g
+
+/-- the query `q` selects a chunk of `g` -/
+def Touched (size : Nat) (q : Ranges) (g : Nat × Nat) : Prop :=
+  ∃ c, g.1 ≤ c ∧ c < g.2 ∧ Spec.selected size q c = true
+
+/-- `g` is verifiably stored: linked to the root of the store (a tree with a single chunk group
+has no stored pairs: its only group is checked against the root directly) -/
+def Verifiable (g : Nat × Nat) : Prop :=
+  if ob.tree.blocks = 1 then
+    g = (0, ob.tree.chunks) ∧
+      (withData = true → hashSubtree hf 0 (data.take ob.tree.size) true = ob.root)
+  else Linked hf fl ob data withData ob.root ob.tree.shifted.1 true g
+
+/-- no load of an existing node can fail, and the data file is as long as the blob -/
+def NoIo : Prop := NoIoErr hf fl ob data ob.tree.shifted.2 withData
+
+/-- loads of an `EmptyOutboard` never fail -/
+theorem noIo_empty (hk : ob.kind = .empty) (hd : withData = true → ob.tree.size ≤ data.length) :
+    NoIo hf fl ob data withData := by
+  refine ⟨fun x _ _ => ?_, hd⟩
+  unfold Store.load
+  rw [hk]
+  exact ⟨_, rfl⟩
+
+/-- loads of the io-backed outboards never fail in the `fsm` flavour (a short read gives zeros) -/
+theorem noIo_fsm (hk : ob.kind = .preIo ∨ ob.kind = .postIo)
+    (hd : withData = true → ob.tree.size ≤ data.length) :
+    NoIo hf .fsm ob data withData := by
+  refine ⟨fun x _ _ => ?_, hd⟩
+  unfold Store.load
+  rcases hk with hk | hk <;> rw [hk] <;> simp only <;> split <;> try split
+  all_goals exact ⟨_, rfl⟩
+
+theorem size_pos_of_blocks (t : Tree) (hb : t.blocks ≠ 1) : 0 < t.size := by
+  apply Nat.pos_of_ne_zero
+  intro h0
+  apply hb
+  unfold Tree.blocks Tree.blocksRaw
+  rw [h0]
+  simp
+
+/-- without the data check the data file does not matter -/
+theorem Verifiable_false_data (data data' : List UInt8) (g : Nat × Nat) :
+    Verifiable hf fl ob data false g ↔ Verifiable hf fl ob data' false g := by
+  unfold Verifiable Linked
+  rw [LinkedC_false_data hf (ob.load hf fl) ob.tree ob.tree.shifted.2 data data']
+  simp
+
+end notions
+
+/-! ## summaries -/
+
+/-- what is proved about a run: it reports only `V`-groups (always), all of them if it ends
+normally, it ends normally when no io error is possible, and its reports are strictly increasing,
+pairwise disjoint and free of duplicates -/
+structure Exact (r : ValRun) (V : Nat × Nat → Prop) (noio : Prop) : Prop where
+  sound : ∀ g ∈ r.yields, V g
+  complete : r.terminal = .ok → ∀ g, V g → g ∈ r.yields
+  ok : noio → r.terminal = .ok
+  sorted : r.yields.Pairwise (fun a b => a.2 ≤ b.1 ∧ a.1 < b.1)
+  nodup : r.yields.Nodup
+
+theorem RunSpec.exact {r : ValRun} {P V : Nat × Nat → Prop} {lo hi : Nat} {noio : Prop}
+    (h : RunSpec r P lo hi) (hpv : ∀ g, P g ↔ V g) (hok : noio → r.terminal = .ok) :
+    Exact r V noio :=
+  ⟨fun g hg => (hpv g).1 (h.sound g hg), fun he g hv => h.complete he g ((hpv g).2 hv), hok,
+    h.sorted, h.sorted.imp (fun hab e => by rw [e] at hab; omega)⟩
+
+/-- the form "`r = ⟨ys, .ok⟩` with `g ∈ ys ↔ V g`" -/
+theorem Exact.iff {r : ValRun} {V : Nat × Nat → Prop} {noio : Prop} (h : Exact r V noio)
+    (hno : noio) :
+    ∃ ys, r = ⟨ys, .ok⟩ ∧ (∀ g, g ∈ ys ↔ V g) ∧
+      ys.Pairwise (fun a b => a.2 ≤ b.1 ∧ a.1 < b.1) ∧ ys.Nodup := by
+  have hok := h.ok hno
+  refine ⟨r.yields, ?_, fun g => ⟨h.sound g, h.complete hok g⟩, h.sorted, h.nodup⟩
+  cases r
+  simp only at hok
+  rw [hok]
+
+section summaries
+open PlanPre
+variable [BEq H] [LawfulBEq H] (hf : HashFns H) (fl : Flavour) (ob : Store H) (data : List UInt8)
+
+theorem rec_exact (wd : Bool) (hs : ob.tree.size ≤ 2 ^ 63) (hbs : ob.tree.bs ≤ 10) {x : Nat}
+    (hx : x < ob.tree.shifted.2) (fuel : Nat) (hfu : Node.level x < fuel) (owed : H)
+    (isRoot : Bool) (rs : Ranges) :
+    Exact (validateRec hf fl wd ob data ob.tree.shifted.2 fuel owed x isRoot rs)
+      (fun g => Linked hf fl ob data wd owed x isRoot g ∧ Reach ob.tree rs x g)
+      (NoIo hf fl ob data wd) := by
+  have hx64 : x < 2 ^ 64 := by
+    have g := tree_geo ob.tree hs hbs
+    have h1 := g.le_blocks
+    have h2 := Offsets.blocks_le ob.tree.size ob.tree.bs hs
+    omega
+  have hlev := (C18.coords_eq hx64).2
+  rw [hlev] at hfu
+  exact (rec_spec_id hf fl ob data wd hs hbs hx fuel hfu owed isRoot rs).exact
+    (fun g => Iff.rfl) (fun hno => rec_ok_id hf fl ob data wd hs hbs hno hx fuel hfu owed isRoot rs)
+
+theorem validRanges_exact (hs : ob.tree.size ≤ 2 ^ 63) (hbs : ob.tree.bs ≤ 10) (q : Ranges) :
+    Exact (validRanges hf fl ob data q)
+      (fun g => Verifiable hf fl ob data true g ∧
+        (ob.tree.blocks = 1 ∨
+          Reach ob.tree (Ranges.truncate q ob.tree.size) ob.tree.shifted.1 g))
+      (NoIo hf fl ob data true) := by
+  by_cases hb : ob.tree.blocks = 1
+  · obtain ⟨h1, h2⟩ := validRanges_one hf fl ob data hb q
+    refine h1.exact (fun g => ?_) (fun hno => h2 (hno.2 rfl))
+    simp only [Verifiable, forall_const, hb, if_true, true_or, and_true]
+  · obtain ⟨hr1, hr2, hr3⟩ := root_facts ob.tree hs
+    rw [validRanges_many hf fl ob data hb q]
+    have hlev := (C18.coords_eq (x := ob.tree.shifted.1) (by
+      have g := tree_geo ob.tree hs hbs
+      have h1 := g.le_blocks
+      have h2 := Offsets.blocks_le ob.tree.size ob.tree.bs hs
+      omega)).2
+    have := rec_exact hf fl ob data true hs hbs hr1 65 (by omega) ob.root true
+      (Ranges.truncate q ob.tree.size)
+    refine ⟨fun g hg => ?_, fun he g hv => ?_, this.ok, this.sorted, this.nodup⟩
+    · have := this.sound g hg
+      simp only [Verifiable, hb, if_false, false_or]; exact this
+    · apply this.complete he
+      simpa only [Verifiable, hb, if_false, false_or] using hv
+
+theorem validOutboardRanges_exact (hs : ob.tree.size ≤ 2 ^ 63) (hbs : ob.tree.bs ≤ 10)
+    (q : Ranges) :
+    Exact (validOutboardRanges hf fl ob q)
+      (fun g => Verifiable hf fl ob [] false g ∧
+        (ob.tree.blocks = 1 ∨
+          Reach ob.tree (Ranges.truncate q ob.tree.size) ob.tree.shifted.1 g))
+      (NoIo hf fl ob [] false) := by
+  by_cases hb : ob.tree.blocks = 1
+  · rw [validOutboardRanges_one hf fl ob hb q]
+    refine (RunSpec.single (P := fun g => g = (0, ob.tree.chunks)) (lo := 0)
+      (hi := ob.tree.chunks + 1) _ rfl (fun g hg => hg) ⟨Nat.le_refl _, by simp, by simp⟩).exact
+      (fun g => ?_) (fun _ => rfl)
+    simp [Verifiable, hb]
+  · obtain ⟨hr1, hr2, hr3⟩ := root_facts ob.tree hs
+    rw [validOutboardRanges_many hf fl ob hb q]
+    have := rec_exact hf fl ob [] false hs hbs hr1 65 (by
+      have hlev := (C18.coords_eq (x := ob.tree.shifted.1) (by
+        have g := tree_geo ob.tree hs hbs
+        have h1 := g.le_blocks
+        have h2 := Offsets.blocks_le ob.tree.size ob.tree.bs hs
+        omega)).2
+      omega) ob.root true (Ranges.truncate q ob.tree.size)
+    refine ⟨fun g hg => ?_, fun he g hv => ?_, this.ok, this.sorted, this.nodup⟩
+    · have := this.sound g hg
+      simp only [Verifiable, hb, if_false, false_or]; exact this
+    · apply this.complete he
+      simpa only [Verifiable, hb, if_false, false_or] using hv
+
+end summaries
+
+/-! ## the whole tree -/
+
+section whole
+open PlanPre C01
+
+theorem root_level (t : Tree) : Spec.levelOf t.shifted.1 = rootLevel t := rfl
+
+theorem endOf_zero_left (L : Nat) : endOf 0 L = 2 ^ (L + 1) := by simp [endOf]
+
+theorem root_covers (t : Tree) (hs : t.size ≤ 2 ^ 63) :
+    nChunks t.size ≤ endOf 0 (rootLevel t + t.bs) := by
+  obtain ⟨size, bs⟩ := t
+  exact rootLevel_covers size bs hs
+
+/-- for groups of the tree: reached by the canonical query = touched by the query -/
+theorem reach_iff_touched_top (t : Tree) (hs : t.size ≤ 2 ^ 63) (hbs : t.bs ≤ 10)
+    (hb : t.blocks ≠ 1) (q : Ranges) (hq : Ranges.WF q = true) (g : Nat × Nat)
+    (hg : Group t t.shifted.1 g) :
+    Reach t (Ranges.truncate q t.size) t.shifted.1 g ↔ Touched t.size q g := by
+  have hsz := size_pos_of_blocks t hb
+  obtain ⟨-, -, hr3⟩ := root_facts t hs
+  have geo := tree_geo t hs hbs
+  have hwf := C14.truncate_wf t.size hq
+  have hsel := C14.truncate_selected t.size hq
+  unfold Reach Group at *
+  rw [hr3, root_level] at hg ⊢
+  constructor
+  · intro h
+    obtain ⟨c, h1, h2, h3, -, -⟩ := reach_touched_aux geo hsz (rootLevel t) 0 _ g hwf
+      (by rw [startOf_zero_left]; exact tight_zero hwf)
+      (Or.inl (root_covers t hs)) hg h
+    exact ⟨c, h1, h2, by rw [← hsel]; exact h3⟩
+  · rintro ⟨c, h1, h2, h3⟩
+    exact touched_reach_aux geo (rootLevel t) 0 _ g hwf hg ⟨c, h1, h2, by rw [hsel]; exact h3⟩
+
+/-- the groups below the shifted root are the chunk ranges of the `blocks` chunk groups -/
+theorem group_iff_top (t : Tree) (hs : t.size ≤ 2 ^ 63) (hbs : t.bs ≤ 10) (g : Nat × Nat) :
+    Group t t.shifted.1 g ↔ ∃ i, i < t.blocks ∧ g = groupRange t i := by
+  obtain ⟨hr1, -, hr3⟩ := root_facts t hs
+  have geo := tree_geo t hs hbs
+  unfold Group
+  rw [hr3, root_level]
+  obtain ⟨size, bs⟩ := t
+  obtain ⟨h, hh, e, _, hbl⟩ := shifted_root size bs hs
+  have hL : rootLevel ⟨size, bs⟩ = h := by
+    unfold rootLevel; rw [e, levelOf_nodeOf (by omega)]
+  have h0 : startOf 0 (rootLevel ⟨size, bs⟩) < (Tree.shifted ⟨size, bs⟩).2 := by
+    rw [startOf_zero_left]; omega
+  constructor
+  · intro hg
+    obtain ⟨i, -, -, h3, h4⟩ := group_is_range_aux size bs _ geo _ 0 g h0 hg
+    exact ⟨i, h3, h4⟩
+  · rintro ⟨i, hi, rfl⟩
+    exact group_exists_aux size bs _ geo _ 0 i h0 (by rw [startOf_zero_left]; omega)
+      (by rw [hL, endOf_zero_left]; exact Nat.lt_of_lt_of_le hi hbl) hi
+
+variable {hf : HashFns H} {fl : Flavour} {ob : Store H} {data d : List UInt8}
+
+/-- if every load of an existing node of level `≥ bs` succeeds, no io error is possible -/
+theorem noIo_of_load {wd : Bool} (hs : ob.tree.size ≤ 2 ^ 63) (hbs : ob.tree.bs ≤ 10)
+    (hld : ∀ k M, ob.tree.bs ≤ M → midOf k M < nChunks ob.tree.size →
+      ∃ p, ob.load hf fl (nodeOf k M) = .ok p)
+    (hd : wd = true → ob.tree.size ≤ data.length) : NoIo hf fl ob data wd := by
+  refine ⟨fun x hx hrel => ?_, hd⟩
+  obtain ⟨hc, hL⟩ := shifted_coords ob.tree hs hbs hx
+  have geo := tree_geo ob.tree hs hbs
+  generalize Spec.indexOf x = k at hc
+  generalize Spec.levelOf x = L at hc hL
+  subst hc
+  rw [subBs_node geo hx] at hrel ⊢
+  rw [isRelevant_node geo hx] at hrel
+  cases L with
+  | zero =>
+    simp only [Nat.lt_irrefl, decide_false, Bool.false_or, decide_eq_true_eq] at hrel
+    exact hld k _ (by omega) (lt_nChunks_of_toBytes_lt hrel)
+  | succ L => exact hld k _ (by omega) (geo.mid_lt_nChunks hx)
+
+/-- a verifiable group is a group of the tree -/
+theorem Verifiable.group {wd : Bool} {g : Nat × Nat} (hb : ob.tree.blocks ≠ 1)
+    (h : Verifiable hf fl ob data wd g) : Group ob.tree ob.tree.shifted.1 g := by
+  unfold Verifiable at h
+  rw [if_neg hb] at h
+  exact LinkedC.group _ _ _ _ _ _ _ _ _ _ _ h
+
+/-- a verifiable group holds true blob bytes: if the root of the store is the BLAKE3 hash of `d`
+and chaining values do not collide, the stored bytes of the group are the bytes of `d` at the same
+place (and lie inside `d`) -/
+theorem verifiable_true_bytes (cf : CollisionFree hf) (hd : d.length ≤ 2 ^ 64 * 1024)
+    (hroot : ob.root = Spec.root hf d) (hlen : ob.tree.size ≤ data.length) {g : Nat × Nat}
+    (h : Verifiable hf fl ob data true g) :
+    groupBytes data ob.tree.size g = groupBytes d ob.tree.size g ∧
+      toBytes g.1 + (groupBytes data ob.tree.size g).length ≤ d.length := by
+  unfold Verifiable at h
+  split at h
+  · obtain ⟨rfl, h⟩ := h
+    have h := h rfl
+    rw [hroot] at h
+    unfold Spec.root Spec.cv at h
+    rw [slice_full] at h
+    obtain ⟨-, hb, -⟩ := cv_inj cf h
+    have hc : ob.tree.size ≤ toBytes ob.tree.chunks := by
+      unfold Tree.chunks chunksOf toBytes; split <;> omega
+    have hlen' : d.length = ob.tree.size := by
+      rw [← hb, List.length_take]; omega
+    have e1 : groupBytes data ob.tree.size (0, ob.tree.chunks) = d := by
+      rw [← hb]
+      simp only [groupBytes, bytesAt, toBytes, Nat.zero_mul, List.drop_zero, Nat.sub_zero]
+      rw [show min (ob.tree.chunks * 1024) ob.tree.size = ob.tree.size by
+        unfold toBytes at hc; omega]
+    have e2 : groupBytes d ob.tree.size (0, ob.tree.chunks) = d := by
+      simp only [groupBytes, bytesAt, toBytes, Nat.zero_mul, List.drop_zero, Nat.sub_zero]
+      rw [show min (ob.tree.chunks * 1024) ob.tree.size = d.length by
+        unfold toBytes at hc; omega]
+      exact List.take_length
+    rw [e1, e2]
+    exact ⟨rfl, by simp [toBytes]⟩
+  · exact linked_true_bytes cf hd hlen _ _ _ _ _ (hroot ▸ TrueCv.root hf d) h
+
+/-- a store whose loads return the true pairs, over the true data: every chunk group is
+verifiable -/
+theorem intact_of_load_top (hs : d.length ≤ 2 ^ 63) (hbs : ob.tree.bs ≤ 10)
+    (hsz : ob.tree.size = d.length) (hroot : ob.root = Spec.root hf d) (wd : Bool)
+    (hld : ∀ k M, ob.tree.bs ≤ M → midOf k M < nChunks d.length →
+      ob.load hf fl (nodeOf k M) = .ok (some (Spec.pair hf d k M)))
+    (i : Nat) (hi : i < ob.tree.blocks) :
+    Verifiable hf fl ob d wd (groupRange ob.tree i) := by
+  have hs' : ob.tree.size ≤ 2 ^ 63 := by omega
+  unfold Verifiable
+  split
+  · rename_i hb
+    have h1 : i = 0 := by omega
+    subst h1
+    have hsmall : ¬ (1 * 2 ^ (ob.tree.bs + 10) < ob.tree.size) := by
+      rw [← Offsets.lt_blocks_iff ob.tree.size ob.tree.bs 1 (by omega)]
+      have : Tree.blocks ⟨ob.tree.size, ob.tree.bs⟩ = ob.tree.blocks := rfl
+      omega
+    have hc : ob.tree.chunks ≤ 2 ^ ob.tree.bs := by
+      have := chunksOf_mono (a := ob.tree.size) (b := toBytes (2 ^ ob.tree.bs)) (by
+        unfold toBytes; rw [Nat.pow_add] at hsmall; omega)
+      rwa [chunksOf_toBytes] at this
+    refine ⟨?_, fun _ => ?_⟩
+    · unfold groupRange Tree.chunks at *
+      simp only [Nat.zero_mul, Nat.zero_add, Nat.one_mul]
+      rw [Nat.min_eq_right hc]
+    · rw [hroot, hsz, List.take_length]
+      unfold Spec.root Spec.cv
+      rw [slice_full]
+  · rename_i hb
+    obtain ⟨hr1, -, hr3⟩ := root_facts ob.tree hs'
+    have geo := tree_geo ob.tree hs' hbs
+    have hg := (group_iff_top ob.tree hs' hbs _).2 ⟨i, hi, rfl⟩
+    unfold Group at hg
+    unfold Linked
+    rw [hr3, root_level] at hg ⊢
+    have := intact_aux (hf := hf) (ld := ob.load hf fl) geo hsz hs wd hld (rootLevel ob.tree) 0 true
+      _ hg
+    have hcov : nChunks d.length ≤ endOf 0 (rootLevel ob.tree + ob.tree.bs) := by
+      rw [← hsz]
+      exact root_covers ob.tree hs'
+    rw [startOf_zero_left, Nat.min_eq_right hcov] at this
+    rw [hroot]
+    exact this
+
+end whole
 
 end Bao.ValidL
